@@ -78,14 +78,15 @@ def _history_cases(tier: str):
         ("lambdac_p_k_pi", "helicity", ["dpd2+stable", "dpd2,dpd2+stable", "plain,dpd1+stable+scalar,dpd2+stable"]),
         ("jpsi_gamma_pi0_pi0", "canonical-helicity", ["axis+stable", "axis,plain,axis+stable"]),
         ("etac_lambda_lambdabar", "helicity", ["plain", "axis,plain"]),  # amplitudes without transitions (zero-filled)
+        ("jpsi_pi0_pip_pim", "helicity", ["axis", "plain,axis"]),  # three topologies, final-state id 0: names m_01 / m_1 tie under natural sorting
     ]
     if tier == "thorough":
         cases += [
             ("jpsi_k0_sigma_pbar_N", "canonical-helicity", ["dpd1", "dpd2+stable,dpd1", "plain,dpd1"]),
             ("d1_k_k_k0", "helicity", ["dpd1+stable", "dpd1,dpd1+stable", "axis+stable,dpd1+stable"]),
-            ("jpsi_pi0_pip_pim", "helicity", ["axis", "plain,axis", "stable,scalar,axis"]),
+            ("jpsi_pi0_pip_pim", "canonical-helicity", ["axis", "stable,scalar,axis"]),
         ]
-    seeds = [0, 1, 4] if tier == "quick" else [0, 1, 2, 3, 4, 5, 6, 7, None]
+    seeds = [0, 1, 2, 4] if tier == "quick" else [0, 1, 2, 3, 4, 5, 6, 7, None]
     return cases, seeds
 
 
@@ -187,8 +188,8 @@ def build(chk: Check) -> None:
     a = sp.IndexedBase("A")
     samples = {
         "_order_component_mapping": {"I_{2}": 1, "A_{10}": 2, "A_{9}": 3, "I_{1}": 4},
-        "_order_symbol_mapping": {sp.Symbol("m_12"): 1, sp.Symbol("m_2"): 2, sp.Symbol("phi_1^12"): 3, sp.Symbol("C_{x}"): 4},
-        "_order_amplitudes": {a[0, 1]: 1, a[1, 0]: 2, a[2, 0]: 3, a[0, 3]: 4},
+        "_order_symbol_mapping": {sp.Symbol("m_01"): 1, sp.Symbol("m_1"): 2, sp.Symbol("phi_1^12"): 3, sp.Symbol("m_2"): 4, sp.Symbol("m_02"): 5},
+        "_order_amplitudes": {a[0, 1]: 1, a[1, 0]: 2, a[-1, 0]: 3, a[0, -1]: 4},
     }
     for name, mapping in samples.items():
         conv = getattr(H, name)
@@ -196,12 +197,6 @@ def build(chk: Check) -> None:
         chk.struct(f"{name}.independent_of_insertion_order", len(outs) == 1, f"ampform.helicity.{name}", witness=len(outs), replay=purity_replay, bounded=True)
         once = conv(mapping)
         chk.struct(f"{name}.idempotent", list(conv(once).items()) == list(once.items()), f"ampform.helicity.{name}", replay=purity_replay, bounded=True)
-
-    # natural_sorting drops signs, so A[1, 0] and A[-1, 0] tie and keep their insertion order: the converter alone does not
-    # canonicalise amplitudes; determinism then rests on a deterministic insertion order (O-order obligations above).
-    tie = [str(k) for k in H._order_amplitudes({a[1, 0]: 1, a[-1, 0]: 2})] != [str(k) for k in H._order_amplitudes({a[-1, 0]: 2, a[1, 0]: 1})]
-    chk.extra["amplitude_sort_key_has_sign_ties"] = bool(tie)
-    chk.notes.append("natural_sorting ignores signs: ties between A[..,+m,..] and A[..,-m,..] keep insertion order (reported, not a violation by itself)")
 
     # ---- E5: bounded history / seed / fresh-process replay ----
     matrix = _replay_purity(chk.tier)
